@@ -277,6 +277,13 @@ impl Fw {
             if *t < self.last_hk[i] {
                 return self.viol(w, Focus::C11, "cache-lifetime", "expired-cache-entry-survived-sweep", format!("n{} keeps cached {} -> {} with timeout {} after a sweep at {}", i, a, p, t, self.last_hk[i]));
             }
+            // a decision cached from a claim never outlives that claim (non-learning modes cache nothing else)
+            if !self.learning {
+                let covered = s.table.claims.iter().any(|c| c.1 == *p && c.2 >= *t && range_matches(&addr_bytes(&c.0.base), c.0.prefix_len, &addr_bytes(a)));
+                if !covered {
+                    return self.viol(w, Focus::C11, "cache-lifetime", "cached-decision-outlives-its-claim", format!("n{} caches {} -> {} until {} but no claim of that peer containing the address lives that long (claims: {:?})", i, a, p, t, s.table.claims.iter().filter(|c| c.1 == *p).map(|c| (format!("{}", c.0), c.2)).collect::<Vec<_>>()));
+                }
+            }
             if *t > now + self.switch_timeout {
                 return self.viol(w, Focus::C11, "cache-lifetime", "cache-entry-outlives-switch-timeout", format!("n{} caches {} -> {} until {} which is more than the switch timeout {} from now ({})", i, a, p, t, self.switch_timeout, now));
             }
@@ -608,7 +615,8 @@ fn gen_tap_frame(w: &mut World, fw: &mut Fw, from: usize) -> Vec<u8> {
         _ => mesh::mac(src_host),
     };
     let mut src = mesh::mac(src_host);
-    src[4] = from as u8; // hosts are attached to the injecting node
+    // hosts are attached to the injecting node; sometimes a station has moved and shows up behind another node
+    src[4] = if w.ch.chance("station_moved", 150) { w.ch.choose("moved_from", fw.n as u32) as u8 } else { from as u8 };
     let mut dstm = dst;
     if dst_kind == 0 {
         dstm[4] = w.ch.choose("dst_behind", fw.n as u32) as u8;
